@@ -7605,6 +7605,7 @@ def main():
     os.makedirs(OUT, exist_ok=True)
     status = {}
     values = None
+    cfg = None  # hook for coding
 
     def write(name, text):
         path = os.path.join(OUT, name)
@@ -7658,6 +7659,38 @@ def main():
         status["verify"] = f"translator cannot read {e}"
     except Exception as e:  # fail closed on anything the parser did not anticipate
         status["verify"] = f"translator cannot read verify.rs/datatype.rs: internal error {type(e).__name__}: {e}"
+    try:  # hook for source (tools/translate_source.py: arrayutils.rs / source.rs / par.rs -> Gen/Source.lean)
+        if status["constants"] != "ok":
+            fail("source.rs: part `constants` failed (Gen/Source.lean imports its output)")
+        import translate_source
+        write("Source.lean", translate_source.emit_source((order, consts, values)))
+        status["source"] = "ok"
+    except Unreadable as e:
+        status["source"] = f"translator cannot read {e}"
+    except Exception as e:  # fail closed on anything the parser did not anticipate
+        status["source"] = f"translator cannot read arrayutils.rs/source.rs: internal error {type(e).__name__}: {e}"
+    try:  # hook for coding: part `coding` lives in tools/translate_coding.py
+        for dep in ("constants", "config", "headers", "writer", "verify"):
+            if status[dep] != "ok":
+                fail(f"coding.rs: part `{dep}` failed (Gen/Coding.lean imports its output)")
+        import translate_coding
+        write("Coding.lean", translate_coding.emit_coding(sys.modules[__name__], (order, consts, values), cfg))
+        status["coding"] = "ok"
+    except Unreadable as e:
+        status["coding"] = f"translator cannot read {e}"
+    except Exception as e:  # fail closed on anything the parser did not anticipate
+        status["coding"] = f"translator cannot read coding.rs: internal error {type(e).__name__}: {e}"
+    try:  # hook for decode (tools/translate_decode.py -> Gen/Decode.lean)
+        import translate_decode
+        for dep in ("tables", "headers", "writer"):
+            if status[dep] != "ok":
+                fail(f"decode.rs: part `{dep}` failed (Gen/Decode.lean imports its output)")
+        write("Decode.lean", translate_decode.emit_decode(sys.modules[__name__], status))
+        status["decode"] = "ok"
+    except Unreadable as e:
+        status["decode"] = f"translator cannot read {e}"
+    except Exception as e:  # fail closed on anything the parser did not anticipate
+        status["decode"] = f"translator cannot read decode.rs/rice.rs/datatype.rs: internal error {type(e).__name__}: {e}"
     os.makedirs(os.path.join(ROOT, ".cache"), exist_ok=True)
     json.dump(status, open(os.path.join(ROOT, ".cache", "translate_status.json"), "w"), indent=1)
     bad = [v for v in status.values() if v != "ok"]
